@@ -40,6 +40,20 @@ class CFG:
                     else:
                         break
                 blk.cond = func.strip(c)
+            if blk.cond is not None:
+                # LIKELY(x)/UNLIKELY(x) = __builtin_expect(!!(x), c): the value branched on is x
+                for _ in range(3):
+                    st = func.stmts[func.strip_casts(blk.cond)] if func.strip_casts(blk.cond) is not None else None
+                    if st is not None and st['k'] == 'CallExpr' and st.get('callee') == '__builtin_expect' and st.get('args'):
+                        inner = func.strip_casts(st['args'][0])
+                        neg = 0
+                        while inner is not None and func.stmts[inner]['k'] == 'UnaryOperator' and func.stmts[inner].get('op') == '!':
+                            neg += 1
+                            inner = func.strip_casts(func.stmts[inner]['ch'][0])
+                        if inner is not None and neg % 2 == 0:
+                            blk.cond = inner
+                            continue
+                    break
             self.blocks[b['id']] = blk
         self.entry = d['entry']
         self.exit = d['exit']
